@@ -11,21 +11,30 @@
 #include <stdlib.h>
 #include <syslog.h>
 
-enum { OP_INIT, OP_OPEN, OP_THREADED, OP_START, OP_ENABLE, OP_DISABLE, OP_LOG, OP_LINELEN, OP_CLOSE, OP_FINI, NOPS };
-static const char *opn[] = { "init", "custom_open", "ctl(THREADED,1)", "thread_start", "ctl(ENABLED,1)", "ctl(ENABLED,0)", "log", "ctl(MAX_LINE_LEN)", "custom_close", "fini" };
+enum { OP_INIT, OP_OPEN, OP_THREADED, OP_START, OP_ENABLE, OP_DISABLE, OP_LOG, OP_LINELEN, OP_CLOSE, OP_FINI, OP_BADLEN, NOPS };
+static const char *opn[] = { "init", "custom_open", "ctl(THREADED,1)", "thread_start", "ctl(ENABLED,1)", "ctl(ENABLED,0)", "log", "ctl(MAX_LINE_LEN)", "custom_close", "fini", "ctl(MAX_LINE_LEN, out of range)" };
 static int depth, burst, burst_n;
 
 /* model */
 static int inited, open_t = -1, threaded, started, enabled, cycles;
 #define MAXMSG 400
-static struct { int required, delivered, logged_threaded; } MSG[MAXMSG];
+static struct { int required, delivered, delivered2, logged_threaded; } MSG[MAXMSG];
+static int two_targets, open_t2 = -1, last_delivered2 = -1;     /* a second target that is opened, switched and closed together with the first */
 static int nmsg, last_delivered = -1, lost_reported, in_fini, fini_done_count;
-static int logger_busy;
+static int logger_busy, badlen_done;
 
 static void my_logger(int32_t t, struct qb_log_callsite *cs, struct timespec *ts, const char *msg)
 {
 	int seq = -1;
 	(void)cs; (void)ts;
+	if (two_targets && t == open_t2 && open_t2 >= 0) {
+		if (sscanf(msg, "m%d", &seq) != 1 || seq < 0 || seq >= nmsg) vp_fail("logger got a message that was never logged: '%.40s'", msg);
+		vp_log("    target2 <- m%d (%s)", seq, vp_co_name(vp_co_self()));
+		if (MSG[seq].delivered2++) vp_fail("message m%d written to the second target twice", seq);
+		if (seq <= last_delivered2) vp_fail("message m%d written to the second target after m%d: out of order", seq, last_delivered2);
+		last_delivered2 = seq;
+		return;
+	}
 	if (t != open_t && open_t >= 0) vp_fail("logger called for target %d, the open one is %d", t, open_t);
 	if (sscanf(msg, "m%d", &seq) != 1 || seq < 0 || seq >= nmsg) vp_fail("logger got a message that was never logged: '%.40s'", msg);
 	if (burst && seq < burst_n && strlen(msg) < 3000) vp_fail("burst message arrived truncated (%zu bytes)", strlen(msg));
@@ -56,14 +65,14 @@ int __wrap_printf(const char *fmt, ...)
 	return r;
 }
 
-static void all_optional(void) { int i; for (i = 0; i < nmsg; i++) if (!MSG[i].delivered) MSG[i].required = 0; }
+static void all_optional(void) { int i; for (i = 0; i < nmsg; i++) if (!MSG[i].delivered || (two_targets && !MSG[i].delivered2)) MSG[i].required = 0; }
 
 static void do_log(size_t len)
 {
 	static char big[5000];
 	int seq = nmsg, before;
 	if (nmsg >= MAXMSG) vp_broken("too many messages");
-	MSG[seq].required = 1; MSG[seq].delivered = 0; MSG[seq].logged_threaded = threaded;
+	MSG[seq].required = 1; MSG[seq].delivered = 0; MSG[seq].delivered2 = 0; MSG[seq].logged_threaded = threaded;
 	nmsg++;
 	before = MSG[seq].delivered;
 	if (len) {
@@ -73,6 +82,7 @@ static void do_log(size_t len)
 		qb_log_from_external_source("fn", "file.c", "m%d", LOG_INFO, 100 + (uint32_t)cycles, 0, seq);
 	(void)before;
 	if (!threaded && MSG[seq].delivered != 1) vp_fail("message m%d to a non-threaded, enabled target was not written during the log call", seq);
+	if (!threaded && two_targets && MSG[seq].delivered2 != 1) vp_fail("message m%d to the second (non-threaded, enabled) target was not written during the log call", seq);
 }
 
 static void do_fini(void)
@@ -83,14 +93,14 @@ static void do_fini(void)
 	in_fini = 0;
 	vp_log("P: fini returned");
 	for (i = 0; i < nmsg; i++) {
-		if (MSG[i].required && !MSG[i].delivered) missing++;
+		if (MSG[i].required && (!MSG[i].delivered || (two_targets && !MSG[i].delivered2))) missing++;
 	}
 	if (missing > lost_reported)
 		vp_fail("qb_log_fini returned but %d queued message(s) were neither written nor reported as lost (reported lost: %d)", missing, lost_reported);
 	if (!burst && lost_reported) vp_fail("%d messages reported lost although the backlog limit was never reached", lost_reported);
 	/* anything undelivered now must never arrive later */
-	for (i = 0; i < nmsg; i++) if (!MSG[i].delivered) MSG[i].delivered = -1000;
-	inited = 0; open_t = -1; threaded = 0; started = 0; enabled = 0; cycles++;
+	for (i = 0; i < nmsg; i++) { if (!MSG[i].delivered) MSG[i].delivered = -1000; if (!MSG[i].delivered2) MSG[i].delivered2 = -1000; }
+	inited = 0; open_t = -1; open_t2 = -1; threaded = 0; started = 0; enabled = 0; cycles++;
 	fini_done_count = nmsg;
 }
 
@@ -130,6 +140,7 @@ static void producer(void *arg)
 			if (open_t >= 0 && enabled) legal[n++] = OP_DISABLE;
 			if (open_t >= 0 && enabled && (!threaded || started)) legal[n++] = OP_LOG;
 			if (open_t >= 0 && last_op != OP_LINELEN) legal[n++] = OP_LINELEN;
+			if (open_t >= 0 && !badlen_done) legal[n++] = OP_BADLEN;
 			if (open_t >= 0) legal[n++] = OP_CLOSE;
 			legal[n++] = OP_FINI;
 		}
@@ -149,10 +160,16 @@ static void producer(void *arg)
 			r = qb_log_filter_ctl(open_t, QB_LOG_FILTER_ADD, QB_LOG_FILTER_FILE, "*", LOG_TRACE);
 			if (r) vp_fail("filter add failed: %d", r);
 			enabled = 0; threaded = 0;
+			if (two_targets) {
+				open_t2 = qb_log_custom_open(my_logger, NULL, NULL, NULL);
+				if (open_t2 < 0) vp_fail("second custom_open failed: %d", open_t2);
+				qb_log_filter_ctl(open_t2, QB_LOG_FILTER_ADD, QB_LOG_FILTER_FILE, "*", LOG_TRACE);
+			}
 			break;
 		case OP_THREADED:
 			r = qb_log_ctl(open_t, QB_LOG_CONF_THREADED, QB_TRUE);
 			if (r) vp_fail("ctl(THREADED) failed: %d", r);
+			if (two_targets && qb_log_ctl(open_t2, QB_LOG_CONF_THREADED, QB_TRUE)) vp_fail("ctl(THREADED) on the second target failed");
 			threaded = 1;
 			break;
 		case OP_START:
@@ -163,12 +180,14 @@ static void producer(void *arg)
 		case OP_ENABLE:
 			r = qb_log_ctl(open_t, QB_LOG_CONF_ENABLED, QB_TRUE);
 			if (r) vp_fail("ctl(ENABLED,1) failed: %d", r);
+			if (two_targets && qb_log_ctl(open_t2, QB_LOG_CONF_ENABLED, QB_TRUE)) vp_fail("ctl(ENABLED,1) on the second target failed");
 			enabled = 1;
 			break;
 		case OP_DISABLE:
 			all_optional();
 			r = qb_log_ctl(open_t, QB_LOG_CONF_ENABLED, QB_FALSE);
 			if (r) vp_fail("ctl(ENABLED,0) failed: %d", r);
+			if (two_targets && qb_log_ctl(open_t2, QB_LOG_CONF_ENABLED, QB_FALSE)) vp_fail("ctl(ENABLED,0) on the second target failed");
 			enabled = 0;
 			break;
 		case OP_LOG:
@@ -178,9 +197,16 @@ static void producer(void *arg)
 			r = qb_log_ctl(open_t, QB_LOG_CONF_MAX_LINE_LEN, 256);
 			if (r) vp_fail("ctl(MAX_LINE_LEN) failed: %d", r);
 			break;
+		case OP_BADLEN:
+			/* a value outside the accepted range is refused and changes nothing - in particular the logging thread goes on */
+			badlen_done = 1;
+			r = qb_log_ctl(open_t, QB_LOG_CONF_MAX_LINE_LEN, 5000);
+			if (r != -EINVAL) vp_fail("ctl(MAX_LINE_LEN, 5000) returned %d, not -EINVAL", r);
+			break;
 		case OP_CLOSE:
 			all_optional();
 			qb_log_custom_close(open_t);
+			if (two_targets && open_t2 >= 0) { qb_log_custom_close(open_t2); open_t2 = -1; }
 			open_t = -1; enabled = 0; threaded = 0;
 			break;
 		case OP_FINI:
@@ -196,7 +222,7 @@ static int only_sync_points(const volatile void *a, int size, int w) { (void)a; 
 static void run(void)
 {
 	int i;
-	inited = 0; open_t = -1; threaded = started = enabled = cycles = 0; nmsg = 0; last_delivered = -1; lost_reported = 0; logger_busy = 0;
+	inited = 0; open_t = -1; threaded = started = enabled = cycles = 0; nmsg = 0; last_delivered = -1; lost_reported = 0; logger_busy = 0; badlen_done = 0; open_t2 = -1; last_delivered2 = -1;
 	vp_sched_reset();
 	vp_heap_reset();
 	vp_stack_size = 512 * 1024;
@@ -214,6 +240,7 @@ static void init(void)
 	depth = (int)vp_param("depth", 6, 8);
 	burst = (int)vp_param("burst", 0, 0);
 	burst_n = (int)vp_param("burst_messages", 130, 130);
+	two_targets = (int)vp_param("two_targets", 0, 0);
 	vp_count_name(1, "executions_with_messages_reported_lost");
 	vp_count_name(2, "messages_logged_total");
 }
